@@ -44,6 +44,15 @@ SpectroscopicSightLineGroup, SpectroscopicFibreOpticGroup, BolometerCamera):
     the target are counted (`rejected_nonmember_reparented_observed`) but not judged; for wrong-length broadcast
     assignments the whole group state (membership + getters + complete member snapshots) must be identical.
 
+  * observe() after histories: every observer a case creates carries an observation counter; group.observe() must
+    observe exactly the members, each exactly once per call, and no other observer - driven also after the membership
+    and the scene-graph children have diverged (members replaced through the setter, extra children never added,
+    members temporarily re-parented to the world);
+  * coincidence assignments: elements that are the CURRENT value of the same attribute (for all / some / shifted
+    members) or of another attribute of the same member whose values are always valid for the assigned one (COMPAT:
+    y_width := current x_width, radius := acceptance_angle, pixel_samples := samples_per_task, ...); the read-back must
+    equal the assigned sequence in every case.
+
 The oracle shares no code with cherab: expectations are computed from the case description and from values read
 directly from the member observers (Raysect objects).
 """
